@@ -81,7 +81,7 @@ Lemma impl_is_underpromotion :
 Proof. vm_compute. reflexivity. Qed.
 Lemma impl_update_noprogress :
   forallb (fun p => forallb (fun t => update_noprogress (fst p) (mv t 0 0 0 0 0) =? nthN (nthN g_update_noprogress (snd p) []) t 9999) types10)
-          [(0, 0); (7, 1); (99, 2)] = true.
+          [(0, 0); (7, 1); (99, 2); (9223372036854775806, 3); (9223372036854775807, 4)] = true.
 Proof. vm_compute. reflexivity. Qed.
 Lemma impl_safe_castling_squares :
   forallb (fun c => forallb (fun t => lN_eqb (safe_castling_squares c t) (nthN (nthN g_safe_castling c []) t [99])) types10) [0; 1] = true.
